@@ -10,7 +10,7 @@ TRUSTED = [
     "the abstraction harness/gen (statement shapes it does not recognise are encoded as 9/99, i.e. show up as disagreements, never guessed) and the program harness/prog",
     "rustc's own dispatch of <T as Trait>::m, Deref, and the From impls of the runtime wrapper types (C12)",
 ]
-ASSUMPTIONS = ["rustc code generation", "grammar = the shapes listed in coq/model/Glue.v (Pin receivers, generics, wrapped associated returns are covered by the compiled programs only)"]
+ASSUMPTIONS = ["rustc code generation", "grammar = the shapes listed in coq/model/Glue.v (plus a trait type parameter `T: Copy + 'static` written for leaf 2; Pin receivers, several type parameters, wrapped associated returns are covered by the compiled programs only)"]
 import os
 import vlib
 from checks import gencommon as G
